@@ -385,7 +385,7 @@ fn judge_grammar(g: &G, v: &Vocab, text: &str, qbytes: &[u8], nq: usize) -> Outc
 
 /// regress / witness cases: {"text": grammar, "cmds": {text: [cands]}, "queries": [{"words": [...], "cur": "..."}]}
 fn case_regress(doc: &serde_json::Value) -> Outcome {
-    let Some(g) = G::from_json(&doc["g"]) else { return Outcome::Broken("bad regress file".into()) };
+    let Some(g) = super::common::grammar_from_doc(doc) else { return Outcome::Broken("bad regress file".into()) };
     let text = print_minimal(&g);
     let Ok(b) = model::denote(&g, "bash") else { return Outcome::Broken("model".into()) };
     let mut cmds = CmdOut::new();
